@@ -21,7 +21,11 @@ Operands == [ K0 |-> <<>>,
               K6 |-> << <<100, 101>> >>,
               K7 |-> << <<99, 101>>, <<299, 301>> >>,
               K8 |-> << <<0, 4095>> >>,
-              K9 |-> [i \in 1..130 |-> <<500 * i, 500 * i + 1>>] ]
+              K9 |-> [i \in 1..130 |-> <<500 * i, 500 * i + 1>>],
+              \* operands of the fault-injection matrix (drv_alloc): each overlaps every left-operand construction
+              KA |-> << <<5, 12>>, <<9998, 10003>>, <<19998, 20002>> >>,
+              KB |-> << <<0, 5000>>, <<9000, 11000>> >>,
+              KRr |-> << <<9000, 16000>> >> ]
 Lists == [ L1 |-> <<5, 3, 5, 70, 3>>, L2 |-> <<65535, 0, 65535>>, L3 |-> [i \in 1..40 |-> 4090 + i] ]
 
 Mutators == {"Add", "Remove", "AddRange", "RemoveRange", "Clear", "AddMany"}
